@@ -445,14 +445,17 @@ Proof.
   apply (ssr_unique 0 (mirror_axis a) n (- q) _ A1'); [lia | |].
   - intros k Hk. cbn [nltb NumR]. rewrite (mirror_get a n k (n - 1 - k) A) by lia.
     rewrite Rltb_opp. apply Rltb_false.
-    pose proof (ssr_above 0 a n q (n - 1 - k) A1 (axis_ascending _ _ A) ltac:(lia)) as B.
+    assert (Hs : (searchsorted_right a q <= n - 1 - k < n)%Z) by lia.
+    pose proof (ssr_above 0 a n q (n - 1 - k) A1 (axis_ascending _ _ A) Hs) as B.
     cbn [nltb NumR] in B. apply Rltb_true in B. lra.
   - intros Hm. cbn [nltb NumR].
     rewrite (mirror_get a n _ (searchsorted_right a q - 1) A) by lia.
     rewrite Rltb_opp. apply Rltb_true.
-    pose proof (ssr_below 0 a n q (searchsorted_right a q - 1) A1 ltac:(lia)) as B.
+    assert (Hs : (0 <= searchsorted_right a q - 1 < searchsorted_right a q)%Z) by lia.
+    pose proof (ssr_below 0 a n q (searchsorted_right a q - 1) A1 Hs) as B.
     cbn [nltb NumR] in B. apply Rltb_false in B.
-    pose proof (Off (searchsorted_right a q - 1)%Z ltac:(lia)). lra.
+    assert (Hn : (0 <= searchsorted_right a q - 1 < n)%Z) by lia.
+    pose proof (Off _ Hn). lra.
 Qed.
 
 (* ON node k the node itself is counted in both frames: n - s + 1 *)
@@ -664,6 +667,255 @@ Proof.
   - apply (src_agrees_off y ny); assumption.
 Qed.
 
+(* ================================================================== *)
+(* 6. _vinterp3d                                                        *)
+(* ================================================================== *)
+Lemma vtrilin_mirror_x x y z v v' nx ny nz xsrc ysrc zsrc i' j k xq yq zq :
+  axis x nx -> rev3_x nx ny nz v v' ->
+  (0 <= i' <= nx - 2)%Z -> (0 <= j <= ny - 2)%Z -> (0 <= k <= nz - 2)%Z ->
+  vtrilin (mirror_axis x) y z v' (- xsrc) ysrc zsrc i' j k (- xq) yq zq =
+  vtrilin x y z v xsrc ysrc zsrc (nx - 2 - i') j k xq yq zq.
+Proof.
+  intros Ax [_ Hv] Hi Hj Hk. unfold vtrilin, appvel3. cbv zeta.
+  rewrite (mirror_get x nx i' (nx - 2 - i' + 1) Ax), (mirror_get x nx (i' + 1) (nx - 2 - i') Ax) by lia.
+  rewrite !Hv by lia. mirror_idx nx i'. rewrite !dist3d_opp_x. f_equal.
+  apply trilin_core_mirror_x.
+  pose proof (axis_lt x nx (nx - 2 - i') (nx - 2 - i' + 1) Ax ltac:(lia)). lra.
+Qed.
+
+Lemma vtrilin_mirror_y x y z v v' nx ny nz xsrc ysrc zsrc i j' k xq yq zq :
+  axis y ny -> rev3_y nx ny nz v v' ->
+  (0 <= i <= nx - 2)%Z -> (0 <= j' <= ny - 2)%Z -> (0 <= k <= nz - 2)%Z ->
+  vtrilin x (mirror_axis y) z v' xsrc (- ysrc) zsrc i j' k xq (- yq) zq =
+  vtrilin x y z v xsrc ysrc zsrc i (ny - 2 - j') k xq yq zq.
+Proof.
+  intros Ay [_ Hv] Hi Hj Hk. unfold vtrilin, appvel3. cbv zeta.
+  rewrite (mirror_get y ny j' (ny - 2 - j' + 1) Ay), (mirror_get y ny (j' + 1) (ny - 2 - j') Ay) by lia.
+  rewrite !Hv by lia. mirror_idx ny j'. rewrite !dist3d_opp_y. f_equal.
+  apply trilin_core_mirror_y.
+  pose proof (axis_lt y ny (ny - 2 - j') (ny - 2 - j' + 1) Ay ltac:(lia)). lra.
+Qed.
+
+Lemma vtrilin_mirror_z x y z v v' nx ny nz xsrc ysrc zsrc i j k' xq yq zq :
+  axis z nz -> rev3_z nx ny nz v v' ->
+  (0 <= i <= nx - 2)%Z -> (0 <= j <= ny - 2)%Z -> (0 <= k' <= nz - 2)%Z ->
+  vtrilin x y (mirror_axis z) v' xsrc ysrc (- zsrc) i j k' xq yq (- zq) =
+  vtrilin x y z v xsrc ysrc zsrc i j (nz - 2 - k') xq yq zq.
+Proof.
+  intros Az [_ Hv] Hi Hj Hk. unfold vtrilin, appvel3. cbv zeta.
+  rewrite (mirror_get z nz k' (nz - 2 - k' + 1) Az), (mirror_get z nz (k' + 1) (nz - 2 - k') Az) by lia.
+  rewrite !Hv by lia. mirror_idx nz k'. rewrite !dist3d_opp_z. f_equal.
+  apply trilin_core_mirror_z.
+  pose proof (axis_lt z nz (nz - 2 - k') (nz - 2 - k' + 1) Az ltac:(lia)). lra.
+Qed.
+
+Lemma times_ok3_mirror_x x y z v v' nx ny nz xq yq zq :
+  axis x nx -> axis y ny -> axis z nz -> rev3_x nx ny nz v v' ->
+  get 0 x [0%Z] <= xq <= get 0 x [(nx - 1)%Z] -> get 0 y [0%Z] <= yq <= get 0 y [(ny - 1)%Z] ->
+  get 0 z [0%Z] <= zq <= get 0 z [(nz - 1)%Z] -> off_nodes x nx xq ->
+  times_ok3 (mirror_axis x) y z v' nx ny nz (- xq) yq zq = times_ok3 x y z v nx ny nz xq yq zq.
+Proof.
+  intros Ax Ay Az [_ Hv] Hx Hy Hz Off.
+  destruct (mirror_off x nx xq Ax Hx Off) as (C & F & F').
+  destruct (cell_facts x nx xq Ax (proj1 Hx) (proj2 Hx)) as (Ix & _).
+  destruct (cell_facts y ny yq Ay (proj1 Hy) (proj2 Hy)) as (Iy & _).
+  destruct (cell_facts z nz zq Az (proj1 Hz) (proj2 Hz)) as (Iz & _).
+  unfold times_ok3. cbv zeta. rewrite C, F, F'.
+  set (i := cell x nx xq) in *. set (j := cell y ny yq) in *. set (k := cell z nz zq) in *.
+  rewrite !Hv by lia. unmirror_idx nx i. nzm_shuffle.
+Qed.
+
+Lemma times_ok3_mirror_y x y z v v' nx ny nz xq yq zq :
+  axis x nx -> axis y ny -> axis z nz -> rev3_y nx ny nz v v' ->
+  get 0 x [0%Z] <= xq <= get 0 x [(nx - 1)%Z] -> get 0 y [0%Z] <= yq <= get 0 y [(ny - 1)%Z] ->
+  get 0 z [0%Z] <= zq <= get 0 z [(nz - 1)%Z] -> off_nodes y ny yq ->
+  times_ok3 x (mirror_axis y) z v' nx ny nz xq (- yq) zq = times_ok3 x y z v nx ny nz xq yq zq.
+Proof.
+  intros Ax Ay Az [_ Hv] Hx Hy Hz Off.
+  destruct (mirror_off y ny yq Ay Hy Off) as (C & F & F').
+  destruct (cell_facts x nx xq Ax (proj1 Hx) (proj2 Hx)) as (Ix & _).
+  destruct (cell_facts y ny yq Ay (proj1 Hy) (proj2 Hy)) as (Iy & _).
+  destruct (cell_facts z nz zq Az (proj1 Hz) (proj2 Hz)) as (Iz & _).
+  unfold times_ok3. cbv zeta. rewrite C, F, F'.
+  set (i := cell x nx xq) in *. set (j := cell y ny yq) in *. set (k := cell z nz zq) in *.
+  rewrite !Hv by lia. unmirror_idx ny j. nzm_shuffle.
+Qed.
+
+Lemma times_ok3_mirror_z x y z v v' nx ny nz xq yq zq :
+  axis x nx -> axis y ny -> axis z nz -> rev3_z nx ny nz v v' ->
+  get 0 x [0%Z] <= xq <= get 0 x [(nx - 1)%Z] -> get 0 y [0%Z] <= yq <= get 0 y [(ny - 1)%Z] ->
+  get 0 z [0%Z] <= zq <= get 0 z [(nz - 1)%Z] -> off_nodes z nz zq ->
+  times_ok3 x y (mirror_axis z) v' nx ny nz xq yq (- zq) = times_ok3 x y z v nx ny nz xq yq zq.
+Proof.
+  intros Ax Ay Az [_ Hv] Hx Hy Hz Off.
+  destruct (mirror_off z nz zq Az Hz Off) as (C & F & F').
+  destruct (cell_facts x nx xq Ax (proj1 Hx) (proj2 Hx)) as (Ix & _).
+  destruct (cell_facts y ny yq Ay (proj1 Hy) (proj2 Hy)) as (Iy & _).
+  destruct (cell_facts z nz zq Az (proj1 Hz) (proj2 Hz)) as (Iz & _).
+  unfold times_ok3. cbv zeta. rewrite C, F, F'.
+  set (i := cell x nx xq) in *. set (j := cell y ny yq) in *. set (k := cell z nz zq) in *.
+  rewrite !Hv by lia. unmirror_idx nz k. nzm_shuffle.
+Qed.
+
+Section VMirror3.
+Variables (x y z v v' : arr R) (nx ny nz : Z) (xq yq zq xsrc ysrc zsrc vzero fval : R).
+Hypothesis Ax : axis x nx.
+Hypothesis Ay : axis y ny.
+Hypothesis Az : axis z nz.
+Hypothesis Sv : shape v = [nx; ny; nz].
+
+(* M3, 3-D, first axis *)
+Theorem vinterp3d_mirror_x_gen : rev3_x nx ny nz v v' ->
+  off_nodes x nx xq -> src_agrees x xq xsrc ->
+  u_vinterp3d_v (mirror_axis x) y z v' (- xq) yq zq (- xsrc) ysrc zsrc vzero fval =
+  u_vinterp3d_v x y z v xq yq zq xsrc ysrc zsrc vzero fval.
+Proof.
+  intros Rv Off Ag. unfold src_agrees in Ag. pose proof (axis_mirror x nx Ax) as Am.
+  assert (Eh : (inhullb (mirror_axis x) (- xq) && inhullb y yq && inhullb z zq)%bool =
+               (inhullb x xq && inhullb y yq && inhullb z zq)%bool)
+    by (rewrite (inhullb_mirror x nx xq Ax); reflexivity).
+  destruct (inhullb x xq && inhullb y yq && inhullb z zq)%bool eqn:E.
+  - pose proof E as E0. apply andb_prop in E0 as [E0 Ez]. apply andb_prop in E0 as [Ex Ey].
+    pose proof (inhullb_true x nx xq Ax Ex) as Hx. pose proof (inhullb_true y ny yq Ay Ey) as Hy.
+    pose proof (inhullb_true z nz zq Az Ez) as Hz.
+    destruct (Z.eq_dec (searchsorted_right x xsrc) (searchsorted_right x xq)) as [Sx|Sx];
+    destruct (Z.eq_dec (searchsorted_right y ysrc) (searchsorted_right y yq)) as [Sy|Sy];
+    destruct (Z.eq_dec (searchsorted_right z zsrc) (searchsorted_right z zq)) as [Sz|Sz];
+    [ rewrite (vinterp3d_source_cell_gen x y z v xq yq zq xsrc ysrc zsrc vzero fval E Sx Sy Sz);
+      rewrite (vinterp3d_source_cell_gen (mirror_axis x) y z v' (- xq) yq zq (- xsrc) ysrc zsrc vzero fval Eh
+                 (proj1 Ag Sx) Sy Sz);
+      rewrite dist3d_opp_x; reflexivity
+    | .. ];
+    ( rewrite (vinterp3d_char x y z v nx ny nz xq yq zq xsrc ysrc zsrc vzero fval Ax Ay Az Sv Hx Hy Hz) by tauto;
+      rewrite (vinterp3d_char (mirror_axis x) y z v' nx ny nz (- xq) yq zq (- xsrc) ysrc zsrc vzero fval
+                 Am Ay Az (proj1 Rv) (hull_mirror x nx xq Ax Hx) Hy Hz) by tauto;
+      rewrite (times_ok3_mirror_x x y z v v' nx ny nz xq yq zq) by assumption;
+      destruct (mirror_off x nx xq Ax Hx Off) as (C & _);
+      destruct (cell_facts x nx xq Ax (proj1 Hx) (proj2 Hx)) as (Ix & _);
+      destruct (cell_facts y ny yq Ay (proj1 Hy) (proj2 Hy)) as (Iy & _);
+      destruct (cell_facts z nz zq Az (proj1 Hz) (proj2 Hz)) as (Iz & _);
+      rewrite (vtrilin_mirror_x x y z v v' nx ny nz) by (assumption || (rewrite C; lia));
+      rewrite C; replace (nx - 2 - (nx - 2 - cell x nx xq))%Z with (cell x nx xq) by lia;
+      rewrite dist3d_opp_x; reflexivity ).
+  - rewrite (vinterp3d_outside x y z v xq yq zq xsrc ysrc zsrc vzero fval E).
+    apply vinterp3d_outside. exact Eh.
+Qed.
+
+(* M3, 3-D, second axis *)
+Theorem vinterp3d_mirror_y_gen : rev3_y nx ny nz v v' ->
+  off_nodes y ny yq -> src_agrees y yq ysrc ->
+  u_vinterp3d_v x (mirror_axis y) z v' xq (- yq) zq xsrc (- ysrc) zsrc vzero fval =
+  u_vinterp3d_v x y z v xq yq zq xsrc ysrc zsrc vzero fval.
+Proof.
+  intros Rv Off Ag. unfold src_agrees in Ag. pose proof (axis_mirror y ny Ay) as Am.
+  assert (Eh : (inhullb x xq && inhullb (mirror_axis y) (- yq) && inhullb z zq)%bool =
+               (inhullb x xq && inhullb y yq && inhullb z zq)%bool)
+    by (rewrite (inhullb_mirror y ny yq Ay); reflexivity).
+  destruct (inhullb x xq && inhullb y yq && inhullb z zq)%bool eqn:E.
+  - pose proof E as E0. apply andb_prop in E0 as [E0 Ez]. apply andb_prop in E0 as [Ex Ey].
+    pose proof (inhullb_true x nx xq Ax Ex) as Hx. pose proof (inhullb_true y ny yq Ay Ey) as Hy.
+    pose proof (inhullb_true z nz zq Az Ez) as Hz.
+    destruct (Z.eq_dec (searchsorted_right x xsrc) (searchsorted_right x xq)) as [Sx|Sx];
+    destruct (Z.eq_dec (searchsorted_right y ysrc) (searchsorted_right y yq)) as [Sy|Sy];
+    destruct (Z.eq_dec (searchsorted_right z zsrc) (searchsorted_right z zq)) as [Sz|Sz];
+    [ rewrite (vinterp3d_source_cell_gen x y z v xq yq zq xsrc ysrc zsrc vzero fval E Sx Sy Sz);
+      rewrite (vinterp3d_source_cell_gen x (mirror_axis y) z v' xq (- yq) zq xsrc (- ysrc) zsrc vzero fval Eh
+                 Sx (proj1 Ag Sy) Sz);
+      rewrite dist3d_opp_y; reflexivity
+    | .. ];
+    ( rewrite (vinterp3d_char x y z v nx ny nz xq yq zq xsrc ysrc zsrc vzero fval Ax Ay Az Sv Hx Hy Hz) by tauto;
+      rewrite (vinterp3d_char x (mirror_axis y) z v' nx ny nz xq (- yq) zq xsrc (- ysrc) zsrc vzero fval
+                 Ax Am Az (proj1 Rv) Hx (hull_mirror y ny yq Ay Hy) Hz) by tauto;
+      rewrite (times_ok3_mirror_y x y z v v' nx ny nz xq yq zq) by assumption;
+      destruct (mirror_off y ny yq Ay Hy Off) as (C & _);
+      destruct (cell_facts x nx xq Ax (proj1 Hx) (proj2 Hx)) as (Ix & _);
+      destruct (cell_facts y ny yq Ay (proj1 Hy) (proj2 Hy)) as (Iy & _);
+      destruct (cell_facts z nz zq Az (proj1 Hz) (proj2 Hz)) as (Iz & _);
+      rewrite (vtrilin_mirror_y x y z v v' nx ny nz) by (assumption || (rewrite C; lia));
+      rewrite C; replace (ny - 2 - (ny - 2 - cell y ny yq))%Z with (cell y ny yq) by lia;
+      rewrite dist3d_opp_y; reflexivity ).
+  - rewrite (vinterp3d_outside x y z v xq yq zq xsrc ysrc zsrc vzero fval E).
+    apply vinterp3d_outside. exact Eh.
+Qed.
+
+(* M3, 3-D, third axis *)
+Theorem vinterp3d_mirror_z_gen : rev3_z nx ny nz v v' ->
+  off_nodes z nz zq -> src_agrees z zq zsrc ->
+  u_vinterp3d_v x y (mirror_axis z) v' xq yq (- zq) xsrc ysrc (- zsrc) vzero fval =
+  u_vinterp3d_v x y z v xq yq zq xsrc ysrc zsrc vzero fval.
+Proof.
+  intros Rv Off Ag. unfold src_agrees in Ag. pose proof (axis_mirror z nz Az) as Am.
+  assert (Eh : (inhullb x xq && inhullb y yq && inhullb (mirror_axis z) (- zq))%bool =
+               (inhullb x xq && inhullb y yq && inhullb z zq)%bool)
+    by (rewrite (inhullb_mirror z nz zq Az); reflexivity).
+  destruct (inhullb x xq && inhullb y yq && inhullb z zq)%bool eqn:E.
+  - pose proof E as E0. apply andb_prop in E0 as [E0 Ez]. apply andb_prop in E0 as [Ex Ey].
+    pose proof (inhullb_true x nx xq Ax Ex) as Hx. pose proof (inhullb_true y ny yq Ay Ey) as Hy.
+    pose proof (inhullb_true z nz zq Az Ez) as Hz.
+    destruct (Z.eq_dec (searchsorted_right x xsrc) (searchsorted_right x xq)) as [Sx|Sx];
+    destruct (Z.eq_dec (searchsorted_right y ysrc) (searchsorted_right y yq)) as [Sy|Sy];
+    destruct (Z.eq_dec (searchsorted_right z zsrc) (searchsorted_right z zq)) as [Sz|Sz];
+    [ rewrite (vinterp3d_source_cell_gen x y z v xq yq zq xsrc ysrc zsrc vzero fval E Sx Sy Sz);
+      rewrite (vinterp3d_source_cell_gen x y (mirror_axis z) v' xq yq (- zq) xsrc ysrc (- zsrc) vzero fval Eh
+                 Sx Sy (proj1 Ag Sz));
+      rewrite dist3d_opp_z; reflexivity
+    | .. ];
+    ( rewrite (vinterp3d_char x y z v nx ny nz xq yq zq xsrc ysrc zsrc vzero fval Ax Ay Az Sv Hx Hy Hz) by tauto;
+      rewrite (vinterp3d_char x y (mirror_axis z) v' nx ny nz xq yq (- zq) xsrc ysrc (- zsrc) vzero fval
+                 Ax Ay Am (proj1 Rv) Hx Hy (hull_mirror z nz zq Az Hz)) by tauto;
+      rewrite (times_ok3_mirror_z x y z v v' nx ny nz xq yq zq) by assumption;
+      destruct (mirror_off z nz zq Az Hz Off) as (C & _);
+      destruct (cell_facts x nx xq Ax (proj1 Hx) (proj2 Hx)) as (Ix & _);
+      destruct (cell_facts y ny yq Ay (proj1 Hy) (proj2 Hy)) as (Iy & _);
+      destruct (cell_facts z nz zq Az (proj1 Hz) (proj2 Hz)) as (Iz & _);
+      rewrite (vtrilin_mirror_z x y z v v' nx ny nz) by (assumption || (rewrite C; lia));
+      rewrite C; replace (nz - 2 - (nz - 2 - cell z nz zq))%Z with (cell z nz zq) by lia;
+      rewrite dist3d_opp_z; reflexivity ).
+  - rewrite (vinterp3d_outside x y z v xq yq zq xsrc ysrc zsrc vzero fval E).
+    apply vinterp3d_outside. exact Eh.
+Qed.
+
+End VMirror3.
+
+Section VMirror3Concrete.
+Variables (x y z v : arr R) (nx ny nz : Z) (xq yq zq xsrc ysrc zsrc vzero fval : R).
+Hypothesis Ax : axis x nx.
+Hypothesis Ay : axis y ny.
+Hypothesis Az : axis z nz.
+Hypothesis Sv : shape v = [nx; ny; nz].
+
+Theorem vinterp3d_mirror_x_off_nodes : off_nodes x nx xq -> off_nodes x nx xsrc ->
+  u_vinterp3d_v (mirror_axis x) y z (reverse3_x v) (- xq) yq zq (- xsrc) ysrc zsrc vzero fval =
+  u_vinterp3d_v x y z v xq yq zq xsrc ysrc zsrc vzero fval.
+Proof.
+  intros Oq Os. pose proof (axis_n _ _ Ax). pose proof (axis_n _ _ Ay). pose proof (axis_n _ _ Az).
+  apply (vinterp3d_mirror_x_gen x y z v _ nx ny nz); auto.
+  - apply reverse3_x_spec; auto; lia.
+  - apply (src_agrees_off x nx); assumption.
+Qed.
+
+Theorem vinterp3d_mirror_y_off_nodes : off_nodes y ny yq -> off_nodes y ny ysrc ->
+  u_vinterp3d_v x (mirror_axis y) z (reverse3_y v) xq (- yq) zq xsrc (- ysrc) zsrc vzero fval =
+  u_vinterp3d_v x y z v xq yq zq xsrc ysrc zsrc vzero fval.
+Proof.
+  intros Oq Os. pose proof (axis_n _ _ Ax). pose proof (axis_n _ _ Ay). pose proof (axis_n _ _ Az).
+  apply (vinterp3d_mirror_y_gen x y z v _ nx ny nz); auto.
+  - apply reverse3_y_spec; auto; lia.
+  - apply (src_agrees_off y ny); assumption.
+Qed.
+
+Theorem vinterp3d_mirror_z_off_nodes : off_nodes z nz zq -> off_nodes z nz zsrc ->
+  u_vinterp3d_v x y (mirror_axis z) (reverse3_z v) xq yq (- zq) xsrc ysrc (- zsrc) vzero fval =
+  u_vinterp3d_v x y z v xq yq zq xsrc ysrc zsrc vzero fval.
+Proof.
+  intros Oq Os. pose proof (axis_n _ _ Ax). pose proof (axis_n _ _ Ay). pose proof (axis_n _ _ Az).
+  apply (vinterp3d_mirror_z_gen x y z v _ nx ny nz); auto.
+  - apply reverse3_z_spec; auto; lia.
+  - apply (src_agrees_off z nz); assumption.
+Qed.
+
+End VMirror3Concrete.
+
 Print Assumptions interp2d_mirror_x.
 Print Assumptions interp2d_mirror_y.
 Print Assumptions interp3d_mirror_x.
@@ -673,3 +925,9 @@ Print Assumptions vinterp2d_mirror_x_gen.
 Print Assumptions vinterp2d_mirror_y_gen.
 Print Assumptions vinterp2d_mirror_x_off_nodes.
 Print Assumptions vinterp2d_mirror_y_off_nodes.
+Print Assumptions vinterp3d_mirror_x_gen.
+Print Assumptions vinterp3d_mirror_y_gen.
+Print Assumptions vinterp3d_mirror_z_gen.
+Print Assumptions vinterp3d_mirror_x_off_nodes.
+Print Assumptions vinterp3d_mirror_y_off_nodes.
+Print Assumptions vinterp3d_mirror_z_off_nodes.
